@@ -98,7 +98,7 @@ impl Property for C15 {
     }
 
     fn budget(&self) -> (u64, u64) {
-        (60_000, 1_800_000)
+        (45_000, 1_350_000)
     }
 
     fn rule(&self) -> &'static str {
@@ -136,10 +136,22 @@ impl Property for C15 {
             lc.n_range = 1_000_000;
             lc.null_pct = 0;
         }
+        // REAL values that are integers beyond 2^53 (still exactly representable, as are all their sums here)
+        let big_real = !huge && rng.chance(1, 12);
         // magnitude regime: INT values near 1e9 (squares sum beyond 2^53 but within i64) mixed with small ones
         let big_n = rng.chance(1, 8);
         let split_law = rng.chance(1, 3);
-        let query = if huge {
+        let query = if big_real {
+            // only aggregates whose result is exact for these inputs (no sums of squares)
+            let mut q = sqlgen::Query::default();
+            q.aggregate = true;
+            q.projections = vec!["SUM(r) AS s".to_owned(), "MIN(r) AS lo".to_owned(), "MAX(r) AS hi".to_owned(), "COUNT(r) AS c".to_owned(), "COUNT(DISTINCT r) AS dc".to_owned()];
+            if rng.chance(1, 2) {
+                q.group_by = vec!["k".to_owned()];
+                q.projections.push("k".to_owned());
+            }
+            q
+        } else if huge {
             let mut q = sqlgen::Query::default();
             q.aggregate = true;
             q.projections = vec![format!("PERCENTILE(n, 0.{}) AS p", rng.range(1, 9)), "COUNT(*) AS c".to_owned(), "COUNT(DISTINCT n) AS dn".to_owned(), "MIN(n) AS lo".to_owned(), "AVG(n) AS a".to_owned()];
@@ -187,6 +199,13 @@ impl Property for C15 {
         for s in specs.iter_mut() {
             if s.r.is_some() && rng.chance(1, 3) {
                 s.r = Some(sqlgen::fmt_quarter(rng.range(-65536, 65536)));
+            }
+        }
+        if big_real {
+            // even integers: one value just above 2^53 per case, the rest small, so every partial sum is exact
+            let big_at = rng.below(specs.len());
+            for (i, s) in specs.iter_mut().enumerate() {
+                s.r = Some(if i == big_at { rng.pick(&["9007199254740994", "9007199254741000"]).to_string() } else { format!("{}.0", 2 * rng.range(0, 40)) });
             }
         }
         // no group may be all-NULL in n or r (see assumptions): give every key's first line values
@@ -250,7 +269,7 @@ impl Property for C15 {
             "stmt": query.text(),
             "joined": if query.join.is_some() { J::String(enc(&gen::join_lines(&joined, true))) } else { J::Null },
             "group_keys": query.group_by,
-            "split_law": split_law && !huge,
+            "split_law": split_law && !huge && !big_real,
             "specs": specs.iter().map(spec_to_json).collect::<Vec<_>>(),
             "orders": orders,
             "cut": rng.below(n + 1),
@@ -266,7 +285,7 @@ impl Property for C15 {
         array_field(case, "specs", &mut out);
         num_field(case, "follow_orders", 0, &mut out);
         // simplify single fields of specs
-        if let Some(specs) = case.get("specs").and_then(|x| x.as_array()) {
+        if let Some(specs) = case.get("specs").and_then(|x| x.as_array()).filter(|a| a.len() <= 64) {
             for (i, s) in specs.iter().enumerate() {
                 for key in ["d", "r", "n"] {
                     if s.get(key).map(|x| !x.is_null()).unwrap_or(false) {
@@ -446,6 +465,8 @@ impl Property for C15 {
         out.probe("large_more_than_16_lines", (n > 16) as u64);
         out.probe("huge_more_than_4096_values_in_a_group", (n > 4096) as u64);
         out.probe("pattern_from_column", stmt.contains("regexp_matches(") as u64);
+        out.probe("real_integer_above_2_pow_53", specs.iter().any(|s| s.r.as_ref().map(|r| r.len() >= 16 && !r.contains('.')).unwrap_or(false)) as u64);
+        out.probe("timestamps_sharing_a_second", (specs.iter().filter(|s| matches!(s.d, Some((2021, 3, 4, 10, 0, _, _)))).count() >= 2) as u64);
         out.probe("int_magnitude_above_1e8", specs.iter().any(|s| s.n.as_ref().map(|n| n.trim_start_matches('-').len() >= 9).unwrap_or(false)) as u64);
         out.probe("text_minmax", (upper.contains("MIN(K)") || upper.contains("MAX(K)")) as u64);
         out
